@@ -133,3 +133,66 @@ Example C04_fixed_point_witness :
   file_of (run true true wit_render (fun _ => []) rev_oracle wit_args [bs "m/a"] wit_world wit_gens wit_fs) (bs "a", bs "zz_generated.rec.go")
   = Some (bs "G;Gm(M0,M1,);").
 Proof. exact (proj2 wit_run_nontrivial). Qed.
+
+(* ---- the composed system (Model/Whole.v, Model/WholeDet.v, Props/Whole.v): this file's model and the pipeline model
+   (C07 / C05 / C02; Model/Pipeline.v under Whole.whole_env) are models of one system ----
+   [WholeDet.det_world] / [det_args] / [det_gen] derive this file's input from the pipeline's; [only_gfs o] takes the one
+   order the pipeline leaves open (the sync.Map of retained genfiles) from the oracle and every other map as given —
+   by C04_order_independent every shuffling oracle gives the same result; [natural o]: o rearranges positions. *)
+Require Gengo.Model.Pipeline Gengo.Model.Whole Gengo.Model.WholeDet Gengo.Proofs.Pipeline Gengo.Proofs.WholeDet
+  Gengo.Model.Dispatch Gengo.Props.Whole.
+
+Theorem C04_whole_determinism_is_pipeline :
+  forall fmt G (o : oracle) rank a w,
+    Gengo.Proofs.WholeDet.world_wf w -> shuffles o -> WholeDet.natural o ->
+    forall gens, NoDup (map Pipeline.g_name gens) -> forall s,
+    let E := Whole.whole_env fmt (WholeDet.order_of o) rank G in
+    match run true true (WholeDet.det_render fmt) WholeDet.det_parse_sum (WholeDet.only_gfs o) (WholeDet.det_args G a)
+              (Pipeline.w_direct w) (WholeDet.det_world w) (map (WholeDet.det_gen w) gens) (WholeDet.det_fs s) with
+    | None => Pipeline.exec_outcome E a w gens s <> Pipeline.Done
+    | Some (f', log) =>
+        Pipeline.exec_outcome E a w gens s = Pipeline.Done
+        /\ (forall q, f' q = Pipeline.fs_lookup q (Pipeline.exec_fs E a w gens s))
+        /\ WholeDet.flat_log log = WholeDet.flat_trace (Pipeline.exec_trace E a w gens s)
+    end.
+Proof. exact Gengo.Props.Whole.Whole_determinism_is_pipeline. Qed.
+Print Assumptions C04_whole_determinism_is_pipeline.
+
+(* C04_order_independent as a statement about Pipeline.exec: the files gengo leaves and the calls it makes do not
+   depend on the iteration orders of the sync.Map of retained genfiles and of the map of stale files (the two orders the
+   pipeline model leaves open) *)
+Theorem C04_whole_pipeline_order_independent :
+  forall fmt G (o1 o2 : oracle) rank1 rank2 a w gens s,
+    Gengo.Proofs.WholeDet.world_wf w -> shuffles o1 -> shuffles o2 -> WholeDet.natural o1 -> WholeDet.natural o2 ->
+    NoDup (Dispatch.keys G) -> NoDup (map Pipeline.g_name gens) ->
+    let E1 := Whole.whole_env fmt (WholeDet.order_of o1) rank1 G in
+    let E2 := Whole.whole_env fmt (WholeDet.order_of o2) rank2 G in
+    (Pipeline.exec_outcome E1 a w gens s = Pipeline.Done <-> Pipeline.exec_outcome E2 a w gens s = Pipeline.Done)
+    /\ (Pipeline.exec_outcome E1 a w gens s = Pipeline.Done ->
+        (forall q, Pipeline.fs_lookup q (Pipeline.exec_fs E1 a w gens s) = Pipeline.fs_lookup q (Pipeline.exec_fs E2 a w gens s))
+        /\ WholeDet.flat_trace (Pipeline.exec_trace E1 a w gens s) = WholeDet.flat_trace (Pipeline.exec_trace E2 a w gens s)).
+Proof. exact Gengo.Props.Whole.Whole_pipeline_order_independent. Qed.
+Print Assumptions C04_whole_pipeline_order_independent.
+
+(* C02 / C07 read on this file's run: a failing run (None) is a pipeline run that did not return Done; a successful run
+   leaves every path that is not gengo's own output as it was *)
+Theorem C04_whole_run_fails_iff_pipeline_fails :
+  forall fmt G (o : oracle) rank a w,
+    Gengo.Proofs.WholeDet.world_wf w -> shuffles o -> WholeDet.natural o ->
+    forall gens, NoDup (map Pipeline.g_name gens) -> forall s,
+    run true true (WholeDet.det_render fmt) WholeDet.det_parse_sum (WholeDet.only_gfs o) (WholeDet.det_args G a)
+        (Pipeline.w_direct w) (WholeDet.det_world w) (map (WholeDet.det_gen w) gens) (WholeDet.det_fs s) = None
+    <-> Pipeline.exec_outcome (Whole.whole_env fmt (WholeDet.order_of o) rank G) a w gens s <> Pipeline.Done.
+Proof. exact Gengo.Props.Whole.Whole_determinism_fails_iff_pipeline_fails. Qed.
+Print Assumptions C04_whole_run_fails_iff_pipeline_fails.
+
+Theorem C04_whole_run_frame :
+  forall fmt G (o : oracle) rank a w,
+    Gengo.Proofs.WholeDet.world_wf w -> shuffles o -> WholeDet.natural o ->
+    forall gens, NoDup (map Pipeline.g_name gens) -> forall s f' log q,
+    run true true (WholeDet.det_render fmt) WholeDet.det_parse_sum (WholeDet.only_gfs o) (WholeDet.det_args G a)
+        (Pipeline.w_direct w) (WholeDet.det_world w) (map (WholeDet.det_gen w) gens) (WholeDet.det_fs s) = Some (f', log) ->
+    ~ Gengo.Proofs.Pipeline.own_output (Whole.whole_env fmt (WholeDet.order_of o) rank G) a w s q ->
+    f' q = WholeDet.det_fs s q.
+Proof. exact Gengo.Props.Whole.Whole_determinism_frame. Qed.
+Print Assumptions C04_whole_run_frame.
